@@ -95,3 +95,231 @@ Proof.
     + rewrite L. cbn [length]. unfold buffer_cap. lia.
     + rewrite E. apply lastn_short. unfold buffer_cap. cbn [length app]. lia.
 Qed.
+
+(* ===================================================================== *)
+(* histories: Core.v on never-failing destinations, in closed form        *)
+
+Definition bump (l : list msg) (d : dest) : dest :=
+  mkDest (d_id d) (d_behave d) (d_calls d + length l) (d_log d ++ l).
+
+Lemma bump_nil d : bump [] d = d.
+Proof. destruct d. unfold bump. cbn. now rewrite Nat.add_0_r, app_nil_r. Qed.
+
+Lemma bump_bump l1 l2 d : bump l2 (bump l1 d) = bump (l1 ++ l2) d.
+Proof. unfold bump. cbn. now rewrite app_length, Nat.add_assoc, app_assoc. Qed.
+
+Lemma map_bump_nil ds : map (bump []) ds = ds.
+Proof. rewrite <- (map_id ds) at 2. apply map_ext. apply bump_nil. Qed.
+
+Lemma never_fails_bump l ds : Forall never_fails ds -> Forall never_fails (map (bump l) ds).
+Proof. intros H. apply Forall_map. eapply Forall_impl; [|exact H]. intros d Hd. exact Hd. Qed.
+
+Lemma map_id_bump l ds : map d_id (map (bump l) ds) = map d_id ds.
+Proof. rewrite map_map. reflexivity. Qed.
+
+Lemma fanout_never m ds : Forall never_fails ds -> fanout m ds = (map (bump [m]) ds, []).
+Proof.
+  induction 1 as [|d r Hd _ IH]; cbn [fanout map]; [reflexivity|].
+  rewrite IH, (Hd (d_calls d) m). unfold bump. cbn [length]. now rewrite Nat.add_1_r.
+Qed.
+
+Lemma send_never c s m :
+  any_added s = true -> Forall never_fails (dests s) ->
+  send c s m = set_out s true (buffer s) (map (bump [fupdate m (globals s)]) (dests s)) (gone s).
+Proof.
+  intros A F. unfold send, deliver. rewrite A, (fanout_never _ _ F).
+  destruct (is_report m); reflexivity.
+Qed.
+
+Lemma send_buffering c s m :
+  any_added s = false ->
+  send c s m = set_out s false (buffer_add (buffer s) (fupdate m (globals s))) (dests s) (gone s).
+Proof. intros A. unfold send, deliver. rewrite A. destruct (is_report m); reflexivity. Qed.
+
+Lemma resend_never c ms : forall s,
+  any_added s = true -> Forall never_fails (dests s) ->
+  resend c s ms =
+  set_out s true (buffer s) (map (bump (map (fun m => fupdate m (globals s)) ms)) (dests s)) (gone s).
+Proof.
+  induction ms as [|m r IH]; intros s A F; cbn [resend map].
+  - rewrite map_bump_nil. destruct s; cbn in *. now subst.
+  - rewrite (send_never c s m A F). rewrite IH; cbn; [|reflexivity | now apply never_fails_bump].
+    unfold set_out. cbn. f_equal. rewrite map_map. apply map_ext. intros d. apply bump_bump.
+Qed.
+
+(* the part of the state histories touch *)
+Record hv := mkHV {
+  v_added : bool; v_buf : list msg; v_dests : list dest; v_gone : list dest;
+  v_glob : fields; v_next : nat }.
+
+Definition view (s : state) : hv :=
+  mkHV (any_added s) (buffer s) (dests s) (gone s) (globals s) (next_uuid s).
+
+Definition vstep (v : hv) (x : hop) : hv :=
+  match x with
+  | HLog mt fs =>
+      let m := fupdate (logged_msg (v_next v) mt fs) (v_glob v) in
+      if v_added v
+      then mkHV true (v_buf v) (map (bump [m]) (v_dests v)) (v_gone v) (v_glob v) (S (v_next v))
+      else mkHV false (buffer_add (v_buf v) m) (v_dests v) (v_gone v) (v_glob v) (S (v_next v))
+  | HAdd ds =>
+      if v_added v
+      then mkHV true (v_buf v) (v_dests v ++ ds) (v_gone v) (v_glob v) (v_next v)
+      else mkHV true [] (map (bump (map (fun m => fupdate m (v_glob v)) (v_buf v))) ds)
+                (v_gone v) (v_glob v) (v_next v)
+  | HRemove id =>
+      match remove_dest id (v_dests v) with
+      | (ds, Some d) => mkHV (v_added v) (v_buf v) ds (v_gone v ++ [d]) (v_glob v) (v_next v)
+      | (_, None) => v
+      end
+  | HGlobals fs => mkHV (v_added v) (v_buf v) (v_dests v) (v_gone v) (fupdate (v_glob v) fs) (v_next v)
+  end.
+
+Definition vrun (h : list hop) (v : hv) : hv := fold_left vstep h v.
+
+Definition added_dests (x : hop) : list dest := match x with HAdd ds => ds | _ => [] end.
+
+Lemma api_view cfg s x :
+  cur s 0 = None -> Forall never_fails (dests s) -> Forall never_fails (added_dests x) ->
+  view (api cfg (fst (hop_op x)) s (snd (hop_op x))) = vstep (view s) x /\
+  cur (api cfg (fst (hop_op x)) s (snd (hop_op x))) 0 = None.
+Proof.
+  intros C F Fx. destruct x as [mt fs|ds|id|fs]; cbn [hop_op fst snd api vstep view added_dests
+    v_added v_buf v_dests v_gone v_glob v_next] in *.
+  - unfold stamp_here, msg_position. rewrite C. cbn [fresh_uuid logger_write].
+    match goal with |- context [send 0 ?s1 ?m] => set (s1' := s1); set (m' := m) end.
+    destruct (any_added s) eqn:A.
+    + rewrite (send_never 0 s1' m') by (subst s1'; cbn; first [assumption | reflexivity]).
+      subst s1' m'. cbn. split; [reflexivity | exact C].
+    + rewrite (send_buffering 0 s1' m') by (subst s1'; cbn; first [assumption | reflexivity]).
+      subst s1' m'. cbn. split; [reflexivity | exact C].
+  - destruct (any_added s) eqn:A.
+    + cbn. split; [reflexivity | exact C].
+    + rewrite resend_never by (cbn; auto). cbn. split; [reflexivity | exact C].
+  - destruct (remove_dest id (dests s)) as [ds [d|]]; cbn; (split; [reflexivity | exact C]).
+  - cbn. split; [reflexivity | exact C].
+Qed.
+
+(* ---- looking destinations up by id; counting ids ---------------------------- *)
+Definition lookup (id : nat) (l : list dest) : option dest :=
+  find (fun d => Nat.eqb (d_id d) id) l.
+
+Definition trace_v (v : hv) (id : nat) : list msg :=
+  match lookup id (v_dests v ++ v_gone v) with Some d => d_log d | None => [] end.
+
+Definition cnt (id : nat) (l : list dest) : nat := count_occ Nat.eq_dec (map d_id l) id.
+
+Lemma trace_of_view s id : trace_of s id = trace_v (view s) id.
+Proof. reflexivity. Qed.
+
+Lemma cnt_app id a b : cnt id (a ++ b) = cnt id a + cnt id b.
+Proof. unfold cnt. now rewrite map_app, count_occ_app. Qed.
+
+Lemma cnt_bump id l ds : cnt id (map (bump l) ds) = cnt id ds.
+Proof. unfold cnt. now rewrite map_id_bump. Qed.
+
+Lemma cnt_cons id d r : cnt id (d :: r) = (if Nat.eqb (d_id d) id then 1 else 0) + cnt id r.
+Proof.
+  unfold cnt. cbn [map count_occ]. destruct (Nat.eq_dec (d_id d) id) as [E|E].
+  - rewrite (proj2 (Nat.eqb_eq _ _) E). reflexivity.
+  - rewrite (proj2 (Nat.eqb_neq _ _) E). reflexivity.
+Qed.
+
+Lemma lookup_app id a b :
+  lookup id (a ++ b) = match lookup id a with Some d => Some d | None => lookup id b end.
+Proof.
+  unfold lookup. induction a as [|d r IH]; cbn [app find]; [reflexivity|].
+  destruct (Nat.eqb (d_id d) id); [reflexivity | exact IH].
+Qed.
+
+Lemma lookup_cnt0 id l : cnt id l = 0 -> lookup id l = None.
+Proof.
+  induction l as [|d r IH]; [reflexivity|]. rewrite cnt_cons. unfold lookup. cbn [find].
+  destruct (Nat.eqb (d_id d) id); [discriminate | exact IH].
+Qed.
+
+Lemma lookup_some id l d : lookup id l = Some d -> d_id d = id /\ 1 <= cnt id l.
+Proof.
+  induction l as [|x r IH]; [discriminate|]. rewrite cnt_cons. unfold lookup. cbn [find].
+  destruct (Nat.eqb (d_id x) id) eqn:E.
+  - intros H. inversion H. subst. apply Nat.eqb_eq in E. split; [exact E | lia].
+  - intros H. destruct (IH H). split; [assumption | lia].
+Qed.
+
+Lemma lookup_bump id l ds :
+  lookup id (map (bump l) ds) = match lookup id ds with Some d => Some (bump l d) | None => None end.
+Proof.
+  unfold lookup. induction ds as [|d r IH]; [reflexivity|]. cbn [map find bump d_id].
+  destruct (Nat.eqb (d_id d) id); [reflexivity | exact IH].
+Qed.
+
+Lemma adds_id_lookup id ds :
+  if adds_id id ds then exists d, lookup id ds = Some d else cnt id ds = 0.
+Proof.
+  unfold adds_id, lookup. induction ds as [|d r IH]; [reflexivity|].
+  cbn [existsb find]. rewrite cnt_cons. destruct (Nat.eqb (d_id d) id); cbn [orb].
+  - eauto.
+  - exact IH.
+Qed.
+
+Lemma remove_dest_spec id ds :
+  match remove_dest id ds with
+  | (ds', None) => ds' = ds /\ cnt id ds = 0
+  | (ds', Some d) =>
+      d_id d = id /\ lookup id ds = Some d /\
+      (forall i, cnt i ds = cnt i ds' + (if Nat.eqb id i then 1 else 0)) /\
+      (forall i, i <> id -> lookup i ds' = lookup i ds)
+  end.
+Proof.
+  induction ds as [|d r IH]; cbn [remove_dest]; [split; reflexivity|].
+  destruct (Nat.eqb (d_id d) id) eqn:E.
+  - apply Nat.eqb_eq in E. repeat split.
+    + exact E.
+    + unfold lookup. cbn [find]. now rewrite (proj2 (Nat.eqb_eq _ _) E).
+    + intros i. rewrite cnt_cons, E. lia.
+    + intros i Hi. unfold lookup. cbn [find]. subst id.
+      now rewrite (proj2 (Nat.eqb_neq _ _) (not_eq_sym Hi)).
+  - destruct (remove_dest id r) as [r' [x|]].
+    + destruct IH as (I1 & I2 & I3 & I4). repeat split.
+      * exact I1.
+      * unfold lookup. cbn [find]. rewrite E. exact I2.
+      * intros i. rewrite !cnt_cons, I3. lia.
+      * intros i Hi. unfold lookup. cbn [find]. destruct (Nat.eqb (d_id d) i); [reflexivity|].
+        apply I4, Hi.
+    + destruct IH as (I1 & I2). subst r'. split; [reflexivity|]. rewrite cnt_cons, E. exact I2.
+Qed.
+
+Lemma remove_dest_forall (P : dest -> Prop) id ds :
+  Forall P ds -> Forall P (fst (remove_dest id ds)).
+Proof.
+  induction 1 as [|d r Hd Hr IH]; cbn [remove_dest]; [constructor|].
+  destruct (Nat.eqb (d_id d) id); [exact Hr|].
+  destruct (remove_dest id r) as [r' x]. cbn [fst] in *. now constructor.
+Qed.
+
+(* ---- the model run, in closed form ---------------------------------------------- *)
+Lemma hist_dests_cons x h : hist_dests (x :: h) = added_dests x ++ hist_dests h.
+Proof. destruct x; reflexivity. Qed.
+
+Lemma vstep_never v x :
+  Forall never_fails (v_dests v) -> Forall never_fails (added_dests x) ->
+  Forall never_fails (v_dests (vstep v x)).
+Proof.
+  intros F Fx. destruct x as [mt fs|ds|id|fs]; cbn [vstep added_dests] in *.
+  - destruct (v_added v); cbn; [now apply never_fails_bump | exact F].
+  - destruct (v_added v); cbn; [apply Forall_app; now split | now apply never_fails_bump].
+  - pose proof (remove_dest_forall never_fails id _ F) as R.
+    destruct (remove_dest id (v_dests v)) as [ds [d|]]; cbn in *; assumption.
+  - exact F.
+Qed.
+
+Lemma run_view cfg h : forall s,
+  cur s 0 = None -> Forall never_fails (dests s) -> Forall never_fails (hist_dests h) ->
+  view (run cfg (map hop_op h) s) = vrun h (view s).
+Proof.
+  unfold run, vrun. induction h as [|x r IH]; intros s C F Fh; [reflexivity|].
+  rewrite hist_dests_cons in Fh. apply Forall_app in Fh as [Fx Fr].
+  cbn [map fold_left]. destruct (api_view cfg s x C F Fx) as [V C'].
+  rewrite IH; [now rewrite V | exact C' | | exact Fr].
+  change (dests ?s) with (v_dests (view s)). rewrite V. now apply vstep_never.
+Qed.
